@@ -289,6 +289,21 @@ class C17Episode(Episode):
         # any terminated worker
         st['self_exit'] = p.term_first is None
         self.fired['writer_self_exit'] += 1
+        rq = st['plan'].get('exit_req')
+        wname = [wc['name'] for wc in self.cfg['watchers']
+                 if wc.get('marker', wc['name']) == p.marker]
+        if rq and wname and not self.world.daemon_gone():
+            # a request for the worker's watcher arrives together with the
+            # worker's death: it is handled before the daemon has read the
+            # pipe or reaped the worker
+            props = dict(rq.get('props') or {}, name=wname[0])
+            if rq['order'] == 'before':
+                self.world.send(rq['cmd'], props, waiting=rq['waiting'])
+            k.external_exit(pid, 0)
+            if rq['order'] == 'after':
+                self.world.send(rq['cmd'], props, waiting=rq['waiting'])
+            self.fired['request_races_with_exit'] += 1
+            return
         k.external_exit(pid, 0)
 
     # -------------------------------------------------------------- oracle
@@ -631,6 +646,13 @@ def gen_plan(rng, big=False):
                          rng.choice([0.0, 0.01, 0.3])]
     elif x < 0.55:
         plan['exit'] = rng.choice([0.0, 0.0, 0.001, 0.05, 0.6])
+        if rng.random() < 0.25:
+            plan['exit_req'] = {
+                'cmd': rng.choice(['stop', 'restart', 'reload', 'reload']),
+                'order': rng.choice(['before', 'after']),
+                'waiting': rng.random() < 0.5}
+            if plan['exit_req']['cmd'] == 'reload':
+                plan['exit_req']['props'] = {'graceful': rng.random() < 0.5}
     return plan
 
 
@@ -642,7 +664,9 @@ class C17(Prop):
             'real os.pipe pairs and a real epoll; each worker follows a write '
             'plan (chunk sizes 1 B .. 70 kB incl. sizes around the buffer and '
             'the pipe capacity, delays, optional early channel close, '
-            'optional exit right after the last write) with position-'
+            'optional exit right after the last write, in a quarter of those '
+            'a stop / restart / reload of its watcher arriving in the same '
+            'instant) with position-'
             'identifiable content; history of sibling kills, restarts of '
             'other workers, incr/decr; step cost > 0 in half of the runs so '
             'that draining spans periodic checks. non-trivial = a run with '
